@@ -17,41 +17,41 @@ import (
 
 // Engine holds one loaded package.
 type Engine struct {
-	Prog         *ssa.Program
-	Pkg          *ssa.Package
-	TPkg         *types.Package
-	PPkg         *packages.Package
-	Fset         *token.FileSet
-	Dir          string
-	Contracts    map[string]*Contract
-	ContractList []*Contract
-	Decls        []*Decl
-	layouts      map[types.Type][]Sort
-	typeIDs      map[string]int64
-	typeNames    map[int64]string
-	globals      map[*ssa.Global]int64
-	funcs        map[*ssa.Function]int64
-	firstDynRef  int64
-	roGlobals    map[*ssa.Global]bool
-	funcsByKey   map[string]*ssa.Function
-	ghostStable  map[string]bool
-	LoadMs       int64
-	Monitors     []*Monitor
-	DumpObl      string
-	ExtraEval    []string
-	Known        *KnownFindingsFile
-	CurProp      string
-	FieldDecls   []*FieldDecl
-	callees      map[*ssa.Function]map[*ssa.Function]bool
-	reachCache   map[*ssa.Function]map[string]bool
-	cellable     map[*ssa.Alloc]bool
-	emitters     map[string]map[string]bool
-	relatedCache map[[2]*types.Named]bool
-	scalarTags  map[int64]Sort
-	relatedCache2 map[string]bool
+	Prog           *ssa.Program
+	Pkg            *ssa.Package
+	TPkg           *types.Package
+	PPkg           *packages.Package
+	Fset           *token.FileSet
+	Dir            string
+	Contracts      map[string]*Contract
+	ContractList   []*Contract
+	Decls          []*Decl
+	layouts        map[types.Type][]Sort
+	typeIDs        map[string]int64
+	typeNames      map[int64]string
+	globals        map[*ssa.Global]int64
+	funcs          map[*ssa.Function]int64
+	firstDynRef    int64
+	roGlobals      map[*ssa.Global]bool
+	funcsByKey     map[string]*ssa.Function
+	ghostStable    map[string]bool
+	LoadMs         int64
+	Monitors       []*Monitor
+	DumpObl        string
+	ExtraEval      []string
+	Known          *KnownFindingsFile
+	CurProp        string
+	FieldDecls     []*FieldDecl
+	callees        map[*ssa.Function]map[*ssa.Function]bool
+	reachCache     map[*ssa.Function]map[string]bool
+	cellable       map[*ssa.Alloc]bool
+	emitters       map[string]map[string]bool
+	relatedCache   map[[2]*types.Named]bool
+	scalarTags     map[int64]Sort
+	relatedCache2  map[string]bool
 	standaloneList []*types.Named
-	memOffCache map[types.Type][]int64
-	autoPureCache map[*ssa.Function]bool
+	memOffCache    map[types.Type][]int64
+	autoPureCache  map[*ssa.Function]bool
 }
 
 // Load type-checks the package in dir (with -tags verif) and builds naive-form SSA for it.
@@ -275,7 +275,7 @@ func (e *Engine) VerifyFunction(fn *ssa.Function, ct *Contract, timeoutMs, par i
 	x.entry = s.Clone()
 	if ct != nil {
 		for _, rq := range ct.Requires {
-			x.C.Assume(env.evalBool(rq.Expr))
+			x.C.Assume(env.evalAssume(rq.Expr))
 		}
 		for _, a := range ct.Assumes {
 			x.C.Trusted[a] = true
@@ -323,7 +323,7 @@ func (e *Engine) VerifyFunction(fn *ssa.Function, ct *Contract, timeoutMs, par i
 			bindResults(post.names, fn.Signature, results)
 			for k, en := range ct.Ensures {
 				name := fmt.Sprintf("%s#ensures%d", unit, k)
-				x.obligeKnown(post, name, "ensures", fmt.Sprintf("%s:%d", filepath.Base(en.File), en.Line), en.Text, exit.Reach, post.evalBool(en.Expr))
+				x.obligeKnown(post, name, "ensures", fmt.Sprintf("%s:%d", filepath.Base(en.File), en.Line), en.Text, exit.Reach, post.evalGoal(en.Expr))
 			}
 			if ct.Modifies != nil {
 				x.frameObligations(unit, ct, env, exit)
@@ -505,11 +505,11 @@ func (e *Engine) VerifyLemma(ct *Contract, timeoutMs, par int, cross bool) (res 
 	}
 	x.entry = s.Clone()
 	for _, rq := range ct.Requires {
-		x.C.Assume(env.evalBool(rq.Expr))
+		x.C.Assume(env.evalAssume(rq.Expr))
 	}
 	x.C.Cover(ct.Key+"#cover.requires", fmt.Sprintf("%s:%d", filepath.Base(ct.File), ct.Line), True)
 	for k, en := range ct.Ensures {
-		x.obligeKnown(env, fmt.Sprintf("%s#ensures%d", ct.Key, k), "lemma", fmt.Sprintf("%s:%d", filepath.Base(en.File), en.Line), en.Text, True, env.evalBool(en.Expr))
+		x.obligeKnown(env, fmt.Sprintf("%s#ensures%d", ct.Key, k), "lemma", fmt.Sprintf("%s:%d", filepath.Base(en.File), en.Line), en.Text, True, env.evalGoal(en.Expr))
 	}
 	for _, ex := range ct.Observes {
 		pe, err := parseSpecExpr(ex)
@@ -589,6 +589,77 @@ func (e *Engine) WriteSetUnits(prop string) []*UnitResult {
 			o.Output = strings.Join(fd.Violated, "; ")
 		}
 		out = append(out, &UnitResult{Unit: name, Kind: "writeset", Props: fd.Props, Obls: []*Obligation{o}})
+	}
+	out = append(out, e.callerUnits(prop)...)
+	return out
+}
+
+// callerUnits checks "callers <callee> [props ..] only F1, F2": every call (call, defer,
+// go) of the callee and every use of it as a value occurs inside a listed function.
+func (e *Engine) callerUnits(prop string) []*UnitResult {
+	var out []*UnitResult
+	for _, d := range e.Decls {
+		if d.Kind != "callers" {
+			continue
+		}
+		parts := strings.SplitN(d.Text+" ", " only ", 2)
+		head := strings.Fields(parts[0])
+		var props []string
+		if len(head) > 2 && head[1] == "props" {
+			props = head[2:]
+		}
+		if !hasProp(props, prop) {
+			continue
+		}
+		name := fmt.Sprintf("callers(%s)", head[0])
+		o := &Obligation{Unit: name, Name: name, Kind: "callers", Pos: fmt.Sprintf("%s:%d", filepath.Base(d.File), d.Line),
+			Clause: "every call or value use of the function occurs in a listed caller: " + d.Text, Solver: "ssa-scan", Status: "unsat"}
+		target := e.Func(head[0])
+		if len(parts) != 2 || target == nil {
+			o.Status, o.Output = "unknown", "malformed declaration or unknown function "+head[0]
+		} else {
+			allowed := map[string]bool{}
+			for _, w := range splitTopLevel(parts[1], ',') {
+				allowed[strings.TrimSpace(w)] = true
+			}
+			var bad []string
+			sites := 0
+			var keys []string
+			for k := range e.funcsByKey {
+				keys = append(keys, k)
+			}
+			sort.Strings(keys)
+			for _, k := range keys {
+				fn := e.funcsByKey[k]
+				for _, b := range fn.Blocks {
+					for _, in := range b.Instrs {
+						uses := false
+						for _, op := range in.Operands(nil) {
+							if op == nil || *op == nil {
+								continue
+							}
+							if f, ok := (*op).(*ssa.Function); ok && (f == target || (f.Synthetic != "" && strings.HasPrefix(f.Name(), target.Name()+"$"))) && f.Pkg == target.Pkg {
+								if f == target || strings.HasPrefix(e.fnKey(f), head[0]+"$") {
+									uses = true
+								}
+							}
+						}
+						if !uses {
+							continue
+						}
+						sites++
+						if !allowed[k] {
+							bad = append(bad, fmt.Sprintf("%s uses %s at %s", k, head[0], e.Fset.Position(in.Pos())))
+						}
+					}
+				}
+			}
+			if len(bad) > 0 {
+				o.Status, o.Output = "unknown", strings.Join(bad, "; ")
+			}
+			o.Clause += fmt.Sprintf(" (%d sites)", sites)
+		}
+		out = append(out, &UnitResult{Unit: name, Kind: "callers", Props: props, Obls: []*Obligation{o}})
 	}
 	return out
 }
